@@ -201,7 +201,12 @@ def eval_cases(ctx, cases):
             if isinstance(rep, dict) and "proto_error" in rep:
                 raise RuntimeError("driver protocol error %r on %r" % (rep, rq))
             if kind == "model":
-                want = out if fn != "eth_coords" else out.get("ok", out)
+                want = out
+                if fn == "eth_coords":
+                    # the order of the generator is not part of the property (only the set, without
+                    # repetition - which the oracle checks on the implementation's list): compare sorted
+                    want = sorted(out["ok"]) if "ok" in out else out
+                    rep = sorted(rep)
                 if fn == "link_vec":
                     want = out.get("ok")
                 if rep != want:
